@@ -240,6 +240,10 @@ func (f *Frame) callContract(ct *Contract, callee *ssa.Function, sig *types.Sign
 	env.asGoal()
 	f.bindParams(env, ct, callee, sig, args)
 	for _, rq := range ct.Requires {
+		if rq.ObjInv {
+			g.note("object invariant of %s is not demanded at call sites (its state is private to the declaring package, whose methods are verified to establish and preserve it): %s", shortName(key), rq.Text)
+			continue
+		}
 		g.beginGoal()
 		o := f.oblige("precond", env.evalBool(rq.E), pos, "precondition of "+shortName(key))
 		g.endGoal()
